@@ -893,6 +893,14 @@ macro_rules! jv_atryseq {
     }};
 }
 
+/// pass-through joiner for `lazy_branches(true)` in the sequential macros: calls the branch closures in
+/// order and returns the tuple of their values (no bound on the closures or the values)
+#[macro_export]
+macro_rules! jv_plazy {
+    ($($f:expr),+ $(,)?) => {
+        ($(($f)()),+)
+    };
+}
 /// pass-through joiners for programs whose values are not harness tokens (C19 bounds stage)
 #[macro_export]
 macro_rules! jv_pjoin {
